@@ -68,6 +68,18 @@ fn alphabet(tier: Tier) -> Vec<String> {
             v.extend(4_294_967 - 64..=4_294_967 + 64);
         }
     }
+    // an arithmetic progression with a prime stride over the whole range of representable rates
+    // (0 ..= 4 294 967): boundary values alone cannot expose a conversion that is off for scattered values
+    // (e.g. one that goes through floating point)
+    let stride = match tier {
+        Tier::Quick => 2003u64,
+        Tier::Thorough => 97,
+    };
+    let mut x = 7u64;
+    while x <= 4_294_967 {
+        v.push(x);
+        x += stride;
+    }
     v.retain(|x| *x <= u32::MAX as u64);
     v.sort();
     v.dedup();
@@ -203,7 +215,7 @@ pub fn run(ctx: &Ctx) -> i32 {
     let coverage = cov(vec![
         ("evaluations", json!(all.len())),
         ("distinct_nontrivial", json!(nontrivial)),
-        ("rule", json!("one run of the release binary per value: 'flag omitted', small values, powers of two +/- 1, and for every k the two values on either side of the point where value x 1000 crosses k x 2^32 (any wrapping, truncating or saturating conversion differs from the exact one on at least one of them), 2^32-1, plus arguments clap must reject; all distinct; non-trivial = values whose ppb equivalent does not fit 32 bits")),
+        ("rule", json!("one run of the release binary per value: 'flag omitted', every 2003rd (thorough: every 97th) representable rate, small values, powers of two +/- 1, and for every k the two values on either side of the point where value x 1000 crosses k x 2^32 (any wrapping, truncating or saturating conversion differs from the exact one on at least one of them), 2^32-1, plus arguments clap must reject; all distinct; non-trivial = values whose ppb equivalent does not fit 32 bits")),
         ("samples", json!(samples)),
         ("outcome_classes", json!(classes)),
         ("private_mount_namespace", json!(ns)),
